@@ -136,6 +136,15 @@ def _gates(tier):
     for i in range(5):
         yield dict(name=f"vhdx.metadata_item_guid[{i}]", kind="magic", sparse=vimg, off=fields[f"meta.entry{i}.id"][1], width=16,
                    open_patched=vopen, thin=4)
+    # ---- VHDX metadata items nobody knows: optional ones are ignored, required ones make the file unsupported
+    def vhdx_items(flags_list):
+        im = BX.build([DATA, 0], [0, None], extra_items=[("last", bytes(range(0x70 + i, 0x80 + i)), b"\x00" * 8, fl)
+                                                        for i, fl in enumerate(flags_list)])
+        return _open_vhdx_sparse(im.sparse(log=False))
+
+    for fl, nm in ((4, "system"), (5, "user"), (6, "system-virtual-disk"), (7, "user-virtual-disk")):
+        yield dict(name=f"vhdx.unknown_required_metadata_item.{nm}", kind="single", seed_ok=lambda fl=fl: vhdx_items([fl & 3]),
+                   fault=lambda fl=fl: vhdx_items([fl]))
     # ---- VHDX differencing images: locator type, parent present, parent reachable at all
     cimg = BX.build([0, DATA], [None, 0], layer=2, parent=[("relative_path", ".\\base.vhdx"), ("parent_linkage", "{x}")])
     loc_off = [f for f in cimg.fields if f[0] == "parent_locator.type"][0][1]
